@@ -789,12 +789,8 @@ func (s *Server) pushUpdateLatest(data *tracerData) error {
 	// calculate diff
 	update := calcUpdate(s.syncSchema, data, s.lastPushData, s.syncShallowClocks)
 
-	// nothing to push
-	if len(update.Indexes) == 0 {
-		return nil
-	}
-
-	// notify without a response
+	// notify without a response (also when only the queue tick moved: the
+	// caller memorises data as pushed)
 	s.CallCount++
 	// fmt.Printf("[S] update %v\n", update)
 	// fmt.Printf("[S] time %v\n", data.mTime)
